@@ -1018,8 +1018,9 @@ func (e *CEnv) call(x *ast.CallExpr) CVal {
 			return CVal{T: e.panicking, S: sBool, Typ: boolT}
 		}
 		return CVal{T: e.fv.panickingTerm(), S: sBool, Typ: boolT}
-	case "callresult":
+	case "callresult", "callarg":
 		// callresult(Callee, i): the i-th result of the unique call of Callee in this function
+		// callarg(Callee, i): the i-th argument of that call (of a call already passed on this path)
 		id, ok := x.Args[0].(*ast.Ident)
 		lit, ok2 := x.Args[1].(*ast.BasicLit)
 		if !ok || !ok2 {
@@ -1058,6 +1059,22 @@ func (e *CEnv) call(x *ast.CallExpr) CVal {
 		default:
 			cfail("callresult: %d calls of %s (ordinal %d)", len(calls), id.Name, which)
 		}
+		if name == "callarg" {
+			args := found.Common().Args
+			if idx >= len(args) {
+				cfail("callarg: index")
+			}
+			av := args[idx]
+			if _, isConst := av.(*ssa.Const); !isConst {
+				if _, done := e.fv.vals[av]; !done {
+					if _, isParam := av.(*ssa.Parameter); !isParam {
+						return CVal{T: e.fv.c.Fresh("undef!"+id.Name, e.g().sortOf(av.Type())), S: e.g().sortOf(av.Type()), Typ: av.Type()}
+					}
+				}
+			}
+			v := e.fv.val(av)
+			return CVal{T: e.fv.term(v), S: e.g().sortOf(av.Type()), Typ: av.Type()}
+		}
 		sv, done := e.fv.vals[found]
 		if !done {
 			// not reached yet in processing order (an early return): any value; clauses guard such uses with err == nil or called()
@@ -1076,8 +1093,10 @@ func (e *CEnv) call(x *ast.CallExpr) CVal {
 			r = &sv.tup[idx]
 		}
 		return CVal{T: e.fv.term(r), S: e.g().sortOf(r.typ), Typ: r.typ}
-	case "called":
-		// called(Callee): the unique call of Callee was executed on this path
+	case "called", "iter":
+		// called(Callee): a call of Callee was executed on this path
+		// iter(Callee): a call of Callee was executed since the head of the innermost loop around that call was last passed
+		// (in the current iteration; equal to called(Callee) for a call outside every loop)
 		id, ok := x.Args[0].(*ast.Ident)
 		if !ok {
 			cfail("called(Callee)")
@@ -1090,6 +1109,9 @@ func (e *CEnv) call(x *ast.CallExpr) CVal {
 			}
 			if n == id.Name || strings.HasSuffix(n, "."+id.Name) {
 				for _, f := range flags {
+					if name == "iter" {
+						f = "X|iter" + strings.TrimPrefix(f, "X|call")
+					}
 					if hit, ok := e.st.heap[f]; ok {
 						hits = append(hits, hit)
 					}
